@@ -25,6 +25,7 @@ func init() {
 			"C15.R8 the amount discarded after a packet: stride - length%stride only under a test that the remainder is not zero, else nothing (alternatives followed through phis and helper returns)",
 			"C15.R10 when a helper recomputes the header/packet lengths from the packet's contents, no caller assigns a field the helper reads after calling it without calling it again (the stored lengths describe the contents the encoder will write)",
 			"C15.R11 every call of (reflect.Value).Int/Uint/Float in the package is control-dependent on an equality test of a Kind() result against a kind of the matching family (these accessors panic on other kinds; payloads of multi-component formats are kept as bytes)",
+			"C15.R13 (contradiction) a nil test of a header item of the packet is not reached only through assignments of nil to that item: otherwise the guarded fix-up of the lengths is dead",
 			"C15.R12 Frames and ChannelInfo derive the channel count from shape.Sizes by the same fold (which elements: every one of a 0..len loop or fixed positions; how combined: product from 1, only those > 0 or all), read in the accessor and the helpers it calls; unrecognised forms are undecided",
 			"C15.R9 the byte-order argument of binary.Read is a concrete value or tested non-nil, unless the data argument is a byte slice",
 			"C15.R1 nil-guard dominance on loads of pointer-typed struct fields and on results of may-return-nil accessors",
@@ -76,6 +77,7 @@ func runC15(p *Prog, r *Report) {
 	c15R10(p, r)
 	c15R11(p, r, fns)
 	c15R12(p, r, fns)
+	c15R13(p, r, fns)
 }
 
 // ---- R1 -----------------------------------------------------------------------------------
